@@ -971,6 +971,21 @@ func (f *Flow) EdgeFacts(b *cfg.Block, succ int) []condFact {
 	}
 	var out []condFact
 	condFacts(cond, succ == 0, &out)
+	// A condition hoisted into a single-definition boolean local
+	// (ok := a != b; if ok {…}) carries the facts of its definition as well.
+	for i, depth := 0, 0; i < len(out) && depth < 32; i++ {
+		id, ok := ast.Unparen(out[i].E).(*ast.Ident)
+		if !ok {
+			continue
+		}
+		if def := singleLocalDefIn(f.Info, f.Body, f.Info.ObjectOf(id)); def != nil {
+			bt, isBool := f.Info.TypeOf(def).(*types.Basic)
+			if isBool && bt.Info()&types.IsBoolean != 0 {
+				depth++
+				condFacts(def, out[i].Val, &out)
+			}
+		}
+	}
 	return out
 }
 
